@@ -460,24 +460,51 @@ def coq_op(op):
     raise ValueError(op)
 
 
+# compact transport encoding (decoded by dec_ops / dec_obs_list in coq/C11/Model.v)
+def enc_cell(c):
+    if c is None: return [3]
+    if c[0] == "int": return [0, c[1]]
+    if c[0] == "ref": return [1, c[1]]
+    return [2, c[1], c[2]]
+
+
+OPCODE = {"NewVar": 0, "Bind": 1, "Unify": 2, "SetVal": 3, "BbPut": 4, "BbBPut": 5, "BbGet": 6, "Try": 7, "Retry": 8, "Trust": 9, "Cut": 10}
+
+
+def enc_segs(segs):
+    out = []
+    for s in segs:
+        for op in s:
+            out.append(OPCODE[op[0]])
+            if op[0] in ("Bind", "SetVal", "BbPut", "BbBPut"):
+                out.append(op[1]); out += enc_cell(op[2])
+            elif op[0] == "Unify":
+                out += [op[1], op[2]]
+            elif op[0] == "BbGet":
+                out.append(op[1])
+        out.append(11)
+    out.append(12)
+    return out
+
+
 class BadObs(Exception):
     pass
 
 
-def coq_oterm(t):
-    if t[0] == "var": return "(OVar %d)" % t[1]
-    if t[0] == "int" and t[1] >= 0: return "(OInt %d)" % t[1]
-    if t[0] == "cmp" and t[1] in ("s1", "s2") and len(t[2]) == 1: return "(OStr %s %s)" % (t[1][1], coq_oterm(t[2][0]))
+def enc_oterm(t):
+    if t[0] == "var": return [0, t[1]]
+    if t[0] == "int" and t[1] >= 0: return [1, t[1]]
+    if t[0] == "cmp" and t[1] in ("s1", "s2") and len(t[2]) == 1: return [2, int(t[1][1])] + enc_oterm(t[2][0])
     raise BadObs(str(t))
 
 
 def obs_from_answer(ans):
-    """vrun answers of one query -> list of Coq obs literals (None if there is no usable answer)."""
+    """vrun answers of one query -> encoded observation list (None if there is no usable answer)."""
     if not ans or not isinstance(ans[0], dict) or "b" not in ans[0] or "R" not in ans[0]["b"]:
         return None
     try:
         items, tail = terms.list_view(terms.from_json(ans[0]["b"]["R"]))
-        out = []
+        out = [len(items)]
         for it in items:
             if it[0] != "cmp" or it[1] != "o" or len(it[2]) != 3:
                 return None
@@ -485,33 +512,57 @@ def obs_from_answer(ans):
             vs = terms.number_vars(vs)
             ats, _ = terms.list_view(it[2][1])
             bs, _ = terms.list_view(it[2][2])
-            ca = []
+            out.append(len(vs))
+            for v in vs:
+                out += enc_oterm(v)
+            out.append(len(ats))
             for a in ats:
-                if a == ("atom", "n"): ca.append("ANone")
-                elif a == ("atom", "b"): ca.append("ABound")
-                elif a[0] == "cmp" and a[1] == "a" and a[2][0][0] == "int": ca.append("(AVal %d)" % a[2][0][1])
+                if a == ("atom", "n"): out.append(1)
+                elif a == ("atom", "b"): out.append(0)
+                elif a[0] == "cmp" and a[1] == "a" and a[2][0][0] == "int": out += [2, a[2][0][1]]
                 else: raise BadObs(str(a))
-            cb = []
+            out.append(len(bs))
             for b in bs:
-                if b == ("atom", "n"): cb.append("None")
-                elif b[0] == "cmp" and b[1] == "v" and b[2][0][0] == "int": cb.append("(Some (VInt %d))" % b[2][0][1])
+                if b == ("atom", "n"): out.append(3)
+                elif b[0] == "cmp" and b[1] == "v" and b[2][0][0] == "int": out += [0, b[2][0][1]]
                 else: raise BadObs(str(b))
-            out.append("{| o_vars := [%s]; o_atts := [%s]; o_bb := [%s] |}" % ("; ".join(coq_oterm(v) for v in vs), "; ".join(ca), "; ".join(cb)))
         return out
     except BadObs:
         return None
 
 
+class TooBig(Exception):
+    pass
+
+
+def pack(nums):
+    """nine 7-bit numbers (stored +1) per primitive integer"""
+    out = []
+    for i in range(0, len(nums), 9):
+        v = 0
+        for j, x in enumerate(nums[i:i + 9]):
+            if not 0 <= x < 126:
+                raise TooBig(x)
+            v |= (x + 1) << (7 * j)
+        out.append(v)
+    return "[%s]%%uint63" % "; ".join(map(str, out))
+
+
+def case_header(case, segs):
+    vs = [case["addr"][v] for v in case["pv"] + case["av"]]
+    h = [case["nkeys"], len(vs)] + vs + [len(case["atts"])]
+    for p in case["atts"]:
+        h += list(p)
+    return h + enc_segs(segs)
+
+
 def case_expr(case, segs, o1, o2):
-    return "check_case %d [%s] [%s] [%s] [%s] [%s] [%s]" % (
-        case["nkeys"], "; ".join("[%s]" % "; ".join(coq_op(o) for o in s) for s in segs),
-        "; ".join(str(case["addr"][v]) for v in case["pv"] + case["av"]),
-        "; ".join("(%d, %d)" % p for p in case["atts"]),
-        "; ".join(str(k) for k in range(case["nkeys"])),
-        "; ".join(o1 or []), "; ".join(o2 or []))
+    o1 = o1 if o1 is not None else [0]
+    o2 = o2 if o2 is not None else [0]
+    return "check_case_p %s" % pack(case_header(case, segs) + (o1 if o1 == o2 else o1 + o2))
 
 
-IMPORTS = "From V Require Import C11.Model."
+IMPORTS = "From Coq Require Import Uint63.\nFrom V Require Import C11.Model."
 
 # fixed probes of the property text on the blackboard (expected values follow the property statement, not the model)
 PROBES = [
@@ -548,6 +599,11 @@ def run(ctx):
             continue
         except RecursionError:
             discarded["recursion"] = discarded.get("recursion", 0) + 1
+            continue
+        try:
+            pack(case_header(case, segs))
+        except TooBig:
+            discarded["too-big"] = discarded.get("too-big", 0) + 1
             continue
         text = render(case, case["goal"])
         canon = text.replace("k%s_" % case["id"], "k_")
@@ -603,20 +659,38 @@ def run(ctx):
             a1 = rs[2 * j] if 2 * j < len(rs) else None
             a2 = rs[2 * j + 1] if 2 * j + 1 < len(rs) else None
             o1, o2 = obs_from_answer(a1), obs_from_answer(a2)
-            exprs.append(case_expr(c, segs_of[c["id"]], o1, o2))
+            try:
+                exprs.append(case_expr(c, segs_of[c["id"]], o1, o2))
+            except TooBig:
+                exprs.append("false")
             meta.append((c, a1, a2, o1, o2, r if "results" not in r else None))
     _t0 = _t.time()
-    bad, errs = core.coq_eval_bools(ctx.prop, IMPORTS, exprs, chunk=300)
+    bad, errs = core.coq_eval_bools(ctx.prop, IMPORTS, exprs, chunk=400)
     dist["seconds_coq"] = round(_t.time() - _t0, 1)
     tie_breaks = [{"kind": "coq-eval", "what": "model evaluation shard failed", "detail": t} for _, t in errs]
     failures = []
+    # ---- sensitivity: on how many of a sample of the cases would a model with another trailing condition be told apart
+    #      (cond_always must never be: trailing more than necessary is harmless)
+    sample = [(c, segs_of[c["id"]]) for c in cases[:ctx.scale(350, 3000)]]
+    mexprs = []
+    MUT = ["wrong_cond", "cond_never", "cond_always", "cond_le"]
+    for mu in MUT:
+        for c, sg in sample:
+            mexprs.append("mutant_same_p %s %s" % (mu, pack(case_header(c, sg))))
+    _t0 = _t.time()
+    mbad, merrs = core.coq_eval_bools(ctx.prop, IMPORTS, mexprs, chunk=350, tag="mutants")
+    dist["seconds_mutants"] = round(_t.time() - _t0, 1)
+    sens = {mu: 0 for mu in MUT}
+    for i in mbad:
+        sens[MUT[i // len(sample)]] += 1
+    dist["mutant_models_detected"] = {"sample": len(sample), "addr<hb-1": sens["wrong_cond"], "never_trail": sens["cond_never"],
+                                      "always_trail(harmless)": sens["cond_always"], "addr<=hb(harmless)": sens["cond_le"]}
+    if merrs:
+        tie_breaks.append({"kind": "coq-eval", "what": "mutant sensitivity shard failed", "detail": merrs[0][1]})
     for i in bad[:12]:
         c, a1, a2, o1, o2, rec = meta[i]
         segs = segs_of[c["id"]]
-        spec = core.coq_eval_show(ctx.prop, IMPORTS, "observations (init %d) [%s] [%s] [%s] [%s]" % (
-            c["nkeys"], "; ".join("[%s]" % "; ".join(coq_op(o) for o in s) for s in segs),
-            "; ".join(str(c["addr"][v]) for v in c["pv"] + c["av"]), "; ".join("(%d, %d)" % p for p in c["atts"]),
-            "; ".join(str(k) for k in range(c["nkeys"])))) if len(failures) < 3 else "(not evaluated)"
+        spec = core.coq_eval_show(ctx.prop, IMPORTS, "observations_p %s" % pack(case_header(c, segs))) if len(failures) < 3 else "(not evaluated)"
         which = []
         for tag, o, a in (("clause", o1, a1), ("query", o2, a2)):
             if o is None:
